@@ -72,12 +72,15 @@ def main():
         tests = sorted(set(re.findall(r"^func (Test\w+)\(", "\n".join(open(os.path.join(dst, d)).read() for d in demos), re.M)))
         run_re = "^(%s)$" % "|".join(tests) if tests else "^$"
 
+        alltext = "\n".join(open(os.path.join(dst, d)).read() for d in demos) + json.dumps(meta)
+        tags = "-tags duckdb_arrow " if "duckdb_arrow" in alltext else ""
+
         def run_demo():
             for d, pdir in demo_pkgs:
                 shutil.copy(os.path.join(dst, d), os.path.join(wt, pdir, "zz_seed_" + d))
             res = []
             for pdir in sorted({p for _, p in demo_pkgs}):
-                res.append(sh("go test -vet=off -count=1 -run '%s' ./%s/" % (run_re, pdir), cwd=wt, env=env))
+                res.append(sh("go test %s-vet=off -count=1 -run '%s' ./%s/" % (tags, run_re, pdir), cwd=wt, env=env))
             for d, pdir in demo_pkgs:
                 os.remove(os.path.join(wt, pdir, "zz_seed_" + d))
             return res
@@ -92,7 +95,7 @@ def main():
         else:
             rc, out = sh("go build %s" % " ".join(pkgs), cwd=wt, env=env)
             conf["builds"] = rc == 0
-            rc, out = sh("go test -vet=off -count=1 %s" % " ".join(pkgs), cwd=wt, env=env)
+            rc, out = sh("go test %s-vet=off -count=1 %s" % (tags, " ".join(pkgs)), cwd=wt, env=env)
             conf["existing_tests_pass_with_patch"] = rc == 0
             if rc != 0:
                 conf["existing_tests_output"] = out[-1500:]
